@@ -39,8 +39,9 @@ def rule_i_wrap(ctx):
     for adt, ms in sorted(impls.items()):
         if adt in sem and sem[adt][0] == "filter":
             continue    # lazy set algebra: E9-set
-        if "DrainFilter" in adt:
-            continue    # predicate-driven: E9-pol
+        a_ = ctx.facts.adts.get(adt)
+        if a_ is not None and any(ctx.facts.types[f["ty"]].get("k") == "param" for v in a_["variants"] for f in v["fields"]):
+            continue    # holds a caller-supplied predicate by value (`f: F`): predicate-driven, its lower bound is 0 by nature: E9-pol
         for name, b in sorted(ms.items()):
             if name not in ("next", "size_hint", "len"):
                 continue
